@@ -594,6 +594,7 @@ pub fn check_point(pt: &Point) -> CheckResult {
             }
         }
     }
+    let git_backend = matches!(scn.backend, Backend::GitLocal | Backend::GitRemote);
     // ---- continuation: all three replicas go on synchronizing
     let mut synced = [false; 3];
     for (ai, a) in scn.cont.iter().enumerate() {
@@ -619,6 +620,12 @@ pub fn check_point(pt: &Point) -> CheckResult {
     }
     for round in 0..2 {
         for r in 0..3 {
+            // (on the git backends, where a sync costs dozens of process launches: replica 2
+            // synchronized last in the first round, has seen everything and nobody has anything
+            // left to send, so its second sync is skipped)
+            if git_backend && round == 1 && r == 2 {
+                continue;
+            }
             run.sync(r).map_err(|e| {
                 Failure::new(
                     sig(if format!("{e:?}").contains("OutOfSync") { "out-of-sync-after-restart" } else { "sync-error-after-restart" }),
